@@ -473,9 +473,11 @@ def _options(prob, kind):
                                     planner=ValueIteration(max_iterations=200), name="plan-to-subgoal",
                                     include_mdp_absorbing_states=True, max_steps=500)]
     elif kind == "unnamed":
-        opts = [PlanToSubgoalOption(mdp=mdp, initial_states=states, subgoals=[subgoal] + absorbing,
-                                    planner=ValueIteration(max_iterations=200),
-                                    include_mdp_absorbing_states=True, max_steps=500)]
+        class UnnamedWander(PlanToSubgoalOption):       # name None, hash = hash(None); random walk
+            policy = FunctionalPolicy(lambda s: DictDistribution.uniform(list(mdp.actions(s))))
+        kw = dict(mdp=mdp, initial_states=states, subgoals=[subgoal] + absorbing,
+                  planner=ValueIteration(max_iterations=200), include_mdp_absorbing_states=True, max_steps=500)
+        opts = [PlanToSubgoalOption(**kw), UnnamedWander(**kw)]
     elif kind == "intname":
         opts = [NamedWander(7, [subgoal] + absorbing)]
     else:
@@ -680,7 +682,8 @@ def C(comp, prob, **par):
 
 def make_plan(tier, seed):
     cases = []
-    ks = [0] if tier == "quick" else [0, 1, 2, 3, 4, 5]
+    # members 0..5 of every random problem family were run clean of exceptions when the check was built
+    ks = [seed % 6] if tier == "quick" else [0, 1, 2, 3, 4, 5]
     for k in ks:
         s = (lambda name: name if k == 0 else f"{name}@{k}")
         cases += [
@@ -712,7 +715,7 @@ def make_plan(tier, seed):
             C("POMDPRollout", s("pomdp_str")), C("POMDPRollout", s("pomdp_str"), policy="qmdp"),
             C("POMDPRollout", s("pomdp_str"), given=1),
         ]
-        if k == 0:
+        if k == ks[0]:
             cases += [
                 C("AStarSearch", "romania"), C("BreadthFirstSearch", "romania"),
                 C("BPI", "tiger"), C("BPI", "loadunload"), C("GA", "tiger"), C("GA", "loadunload"),
@@ -894,6 +897,7 @@ def judge(ctx, plan, traces, summaries):
             ctx.nontrivial(tr["case"])
         else:
             ctx.count("cases_whose_result_does_not_depend_on_the_seed")
+            ctx.extra.setdefault("seed_insensitive_cases", []).append(tr["case"])
         ctx.sample({"case": tr["case"], "idiom": idiom, "processes": [p["hs"] for p in tr["procs"]],
                     "first_run": next(e for e in tr["ev"] if e["k"] == "R"),
                     "observed": s["observed"], "predicted": s["predicted"]})
